@@ -520,7 +520,9 @@ class Seam:
             return self._os_fstat(path)
         if self.virtual_root:
             try:
-                if os.fspath(path) == '/':
+                p_ = os.fspath(path)
+                # (also the real root reached by climbing with '..' from a tree outside the world)
+                if p_ == '/' or (isinstance(p_, str) and p_.endswith('/..') and os.path.normpath(p_) == '/'):
                     st = _o['os.stat'](self.root)
                     return self._wrap_stat(st, self.root, '.')
             except TypeError:
